@@ -798,7 +798,31 @@ def r7_every_framing_accepted(ctx):
     c11.r6_only_counted_bytes_refuse(Renamed(ctx, "C09.R7", "a body is delivered or refused independently of how its length was declared"))
 
 
-RULES = [("C09.R7", r7_every_framing_accepted), ("C09.R1", r1_decoder_inputs), ("C09.R2", r2_primitive_table), ("C09.R3", r3_request_context), ("C09.R4", r4_no_shared_channel),
+
+def r8_media_type_normalised(ctx):
+    """Added after adversary change C09-C (the `trim_end()` between the cut at `;` and the lower-casing was lost, so
+    `Content-Type: application/json ; charset=utf-8` — legal per RFC 9110 8.3.1 — was refused)."""
+    R = ctx.rule("C09.R8", "the request's media type is compared after RFC 9110 normalisation: parameters cut at the first ';', optional whitespace trimmed, case folded — "
+                 "so every standards-conformant spelling of the endpoint's content type reaches the decoder", floor=4)
+    top = ctx.need_fn(ctx.ds, R, r"^extractor::body::http_request_load_body$")
+    f = ctx.ds.body_of(top)
+    fm = f.live_calls(r"ApiEndpointBodyContentType::from_mime_type$")
+    ctx.check(R, "one-media-type-lookup", len(fm) == 1, "from_mime_type call sites in http_request_load_body: %d" % len(fm), f)
+    if len(fm) != 1:
+        return
+    bb, t = fm[0]
+    sl = f.slice(t["args"][0])
+    hdr = sl.has_const_path(r"header::CONTENT_TYPE$") and sl.has_call(r"http::HeaderMap::<T>::get$")
+    cut = sl.has_call(r"str::<impl str>::(find|split|split_once|splitn)$") and any(a[0] == "lit" and a[1] == '{"int": 59, "bytes": 4}' for a in sl.atoms)
+    trim = sl.has_call(r"str::<impl str>::(trim|trim_end|trim_ascii|trim_ascii_end)$")
+    fold = sl.has_call(r"str::<impl str>::(to_lowercase|to_ascii_lowercase)$|eq_ignore_ascii_case$")
+    ctx.check(R, "from-this-request's-content-type-header", hdr, "the looked-up media type derives from headers.get(CONTENT_TYPE): %s" % hdr, (f, bb))
+    ctx.check(R, "parameters-cut-at-semicolon", cut, "the value is cut at ';' before the lookup: %s" % cut, (f, bb))
+    ctx.check(R, "optional-whitespace-trimmed", trim, "whitespace between the media type and ';' is trimmed (trim / trim_end) before the lookup: %s" % trim, (f, bb))
+    ctx.check(R, "case-folded", fold, "the media type is case-folded before the lookup: %s" % fold, (f, bb))
+
+
+RULES = [("C09.R8", r8_media_type_normalised), ("C09.R7", r7_every_framing_accepted), ("C09.R1", r1_decoder_inputs), ("C09.R2", r2_primitive_table), ("C09.R3", r3_request_context), ("C09.R4", r4_no_shared_channel),
          ("C09.R5", r5_multipart_boundary), ("C09.R6", r6_positional_arguments)]
 
 _F5_NOW = """        let boundary =
@@ -965,3 +989,5 @@ SELFTEST = [
 ]
 
 LEVEL_TEXT += ' Also (R7 = C11.R6): the body stream refuses only on counted bytes, a sound lower bound or a transport error, so every framing (Content-Length, chunked, length-less) is treated alike.'
+
+LEVEL_TEXT += " Also (R8): the request's media type is looked up after RFC 9110 normalisation (cut at ';', whitespace trimmed, case folded)."
